@@ -322,7 +322,8 @@ void write_replay(const std::string& path, const Case& c, const std::vector<uint
     << ",\n \"message\": " << jstr(o.message) << ",\n \"case\": " << jstr(o.describe)
     << ",\n \"sched_seed\": " << c.cp.sched_seed << ",\n \"strategy\": " << c.cp.strategy
     << ",\n \"pct_depth\": " << c.cp.pct_depth << ",\n \"p_switch\": " << c.cp.p_switch
-    << ",\n \"p_stale\": " << c.cp.p_stale << ",\n \"prog\": [";
+    << ",\n \"p_stale\": " << c.cp.p_stale << ",\n \"allow_known\": " << jstr(getenv("VF_ALLOW_KNOWN") ? getenv("VF_ALLOW_KNOWN") : "")
+    << ",\n \"prog\": [";
   for (size_t i = 0; i < c.prog.size(); i++) f << (i ? "," : "") << c.prog[i];
   f << "],\n \"decisions\": [";
   for (size_t i = 0; i < dec.size(); i++) f << (i ? "," : "") << dec[i];
@@ -377,6 +378,14 @@ bool load_replay(const std::string& path, Case* c, std::vector<uint16_t>* dec) {
   c->cp.pct_depth = (int)read_int(t, "pct_depth", 2);
   c->cp.p_switch = (int)read_int(t, "p_switch", 200);
   c->cp.p_stale = (int)read_int(t, "p_stale", 0);
+  {
+    // the environment switch the case was recorded under (known-finding witnesses)
+    size_t p;
+    if (find_key(t, "allow_known", &p) && p < t.size() && t[p] == '"') {
+      size_t e = t.find('"', p + 1);
+      if (e != std::string::npos && e > p + 1) setenv("VF_ALLOW_KNOWN", t.substr(p + 1, e - p - 1).c_str(), 1);
+    }
+  }
   c->prog = read_arr<uint32_t>(t, "prog");
   *dec = read_arr<uint16_t>(t, "decisions");
   return true;
@@ -516,8 +525,8 @@ int main_driver(int argc, char** argv, const Target& t) {
     Case c;
     c.prog = *rc::gen::container<std::vector<uint32_t>>(prog_len, rc::gen::resize(100, rc::gen::inRange<uint32_t>(0, 0xFFFFFFFFu)));
     c.cp.sched_seed = *rc::gen::resize(100, rc::gen::inRange<uint64_t>(1, 1ULL << 40));
-    c.cp.strategy = *rc::gen::resize(100, rc::gen::inRange<int>(0, 2));
-    c.cp.pct_depth = *rc::gen::resize(100, rc::gen::inRange<int>(1, 5));
+    c.cp.strategy = *rc::gen::resize(100, rc::gen::inRange<int>(0, 3));  // upper bound exclusive
+    c.cp.pct_depth = *rc::gen::resize(100, rc::gen::inRange<int>(1, 6));
     c.cp.p_switch = *rc::gen::resize(100, rc::gen::element(30, 100, 250, 500));
     int weak = *rc::gen::resize(100, rc::gen::inRange<int>(0, 100));
     c.cp.p_stale = (t.allow_weak && weak < t.weak_percent) ? *rc::gen::resize(100, rc::gen::element(100, 300, 600)) : 0;
